@@ -1,11 +1,12 @@
 #!/bin/bash
-# developer helper: symbolic part of the quick checks against a seed applied to the scratch worktree /var/tmp/repo-clean
-# (no native confirmation, evidence written to /var/tmp/dev-evidence) - usable while /repo is busy
+# developer helper: the quick checks against a seed applied to the scratch worktree /var/tmp/repo-clean (usable while /repo is busy):
+# MIR is dumped from the scratch worktree and counterexamples are replayed against a scratch copy of the replayer built on it;
+# evidence goes to /var/tmp/dev-evidence. NOCONFIRM=1 skips the native replay.
 cd /verif
 id=$1; shift
 git -C /var/tmp/repo-clean checkout -q -- . && git -C /var/tmp/repo-clean apply /verif/seeded/$id/patch.diff || exit 3
 for p in "$@"; do
-  out=$(VERIF_REPO=/var/tmp/repo-clean VERIF_NOCONFIRM=1 VERIF_EVIDENCE_DIR=/var/tmp/dev-evidence VERIF_JOBS=${VERIF_JOBS:-6} ./check $p --tier quick 2>&1); rc=$?
-  echo "$id $p exit=$rc $(echo "$out" | grep -E '^violated' | head -3 | tr '\n' ';' | cut -c1-400) $(echo "$out" | grep -E '^INCONCLUSIVE' | head -2 | tr '\n' ';' | cut -c1-300)"
+  out=$(VERIF_REPO=/var/tmp/repo-clean VERIF_NOCONFIRM=${NOCONFIRM:-} VERIF_EVIDENCE_DIR=/var/tmp/dev-evidence VERIF_JOBS=${VERIF_JOBS:-6} ./check $p --tier ${TIER:-quick} 2>&1); rc=$?
+  echo "$id $p exit=$rc $(echo "$out" | grep -E '^violated|^VIOLATION' | head -4 | tr '\n' ';' | cut -c1-500) $(echo "$out" | grep -E '^INCONCLUSIVE' | head -2 | tr '\n' ';' | cut -c1-300)"
 done
 git -C /var/tmp/repo-clean checkout -q -- .
